@@ -121,6 +121,8 @@ structure CompState where
   store : Store
   lastFailed : Bytes := []
   calls : Nat := 0
+  /-- ghost: the delete calls made so far, in order (`true` = compare-and-delete) -/
+  trace : List (Bool × Bytes) := []
   deriving Repr
 
 /-- Execute the delete actions in order against the live store. `mask i` is the outcome the
@@ -130,16 +132,16 @@ def runDelete (mask : Nat → DelOutcome) (st : CompState) : Act → CompState
   | .del ik raw =>
     if st.lastFailed.length > 0 && st.lastFailed == raw then st
     else match mask st.calls with
-      | .ok => { st with store := st.store.erase ik, calls := st.calls + 1 }
-      | .fail => { st with lastFailed := raw, calls := st.calls + 1 }
-      | .failCas => { st with calls := st.calls + 1 }
+      | .ok => { st with store := st.store.erase ik, calls := st.calls + 1, trace := st.trace ++ [(false, ik)] }
+      | .fail => { st with lastFailed := raw, calls := st.calls + 1, trace := st.trace ++ [(false, ik)] }
+      | .failCas => { st with calls := st.calls + 1, trace := st.trace ++ [(false, ik)] }
   | .delcur ik v raw =>
     if st.lastFailed.length > 0 && st.lastFailed == raw then st
     else match mask st.calls with
-      | .ok => if st.store.get ik = some v then { st with store := st.store.erase ik, calls := st.calls + 1 }
-               else { st with calls := st.calls + 1 }
-      | .fail => { st with lastFailed := raw, calls := st.calls + 1 }
-      | .failCas => { st with calls := st.calls + 1 }
+      | .ok => if st.store.get ik = some v then { st with store := st.store.erase ik, calls := st.calls + 1, trace := st.trace ++ [(true, ik)] }
+               else { st with calls := st.calls + 1, trace := st.trace ++ [(true, ik)] }
+      | .fail => { st with lastFailed := raw, calls := st.calls + 1, trace := st.trace ++ [(true, ik)] }
+      | .failCas => { st with calls := st.calls + 1, trace := st.trace ++ [(true, ik)] }
   | _ => st
 
 def runDeletes (mask : Nat → DelOutcome) (st : CompState) (acts : List Act) : CompState :=
